@@ -15,7 +15,7 @@ MANIFEST = {
     "design_ref": "§5 C10",
     "text": ("Lean theorems over the executable NOTIFY model (header ladder taken from the table generated from handle_notify, "
              "SID lookup, changes dict, notify_changed_state_variables loop with the {ns}name fallback, upnp_value setter with "
-             "the coercer kinds generated from const.py): status_spec (400/412/200 for every header combination), "
+             "the coercer kinds generated from const.py): status_spec (400/412/200 for every header combination), type_table_pinned, "
              "apply_complete / c10_step (for every handler state and every well-formed property set the per-variable judge "
              "C10.stepOk holds: named+valid -> stored and stamped, not convertible -> reads absent and listed, out of range / "
              "not allowed -> untouched, unknown skipped, exactly one callback listing exactly the replaced variables, other "
